@@ -8,6 +8,14 @@ import sys
 import time
 
 
+def _entries(cache_dir):
+    """Number of stored results in a joblib.Memory directory."""
+    n = 0
+    for _root, _dirs, files in os.walk(cache_dir):
+        n += sum(1 for f in files if f.startswith("output.pkl"))
+    return n
+
+
 def main():
     from vf import setup_env, WORK
     setup_env()
@@ -22,6 +30,9 @@ def main():
         kw = {}
         if args.get("cache_dir"):
             kw["cache_dir"] = args["cache_dir"]
+            out["cache_entries_before"] = _entries(args["cache_dir"])
+        if args.get("spec_path"):
+            kw["spec_path"] = args["spec_path"]
         if args.get("einsum_names"):
             kw["einsum_names"] = args["einsum_names"]
         res = H.run_mapper(args["desc"], args["metrics"], eval_in_detail=args.get("eval_in_detail", True),
@@ -35,6 +46,8 @@ def main():
     except Exception as e:
         import traceback
         out = {"ok": False, "error": f"{type(e).__name__}: {str(e)[:400]}", "traceback": traceback.format_exc()[-2000:]}
+    if args.get("cache_dir"):
+        out["cache_entries_after"] = _entries(args["cache_dir"])
     out["wall_s"] = round(time.time() - t0, 2)
     out["hashseed"] = os.environ.get("PYTHONHASHSEED")
     with open(sys.argv[2], "w") as f:
